@@ -230,10 +230,37 @@ func All() []Family {
 			s.(*sdf.IntersectionSDF3).SetMax(sdf.PolyMax(0.1))
 			return s, nil
 		}),
-		f3("cut3d", "combinator", func(e *Env) (sdf.SDF3, error) { return sdf.Cut3D(box3(), v3.Vec{X: 0.1}, v3.Vec{X: 1, Y: 1, Z: 0.5}), nil }),
+		f3("cut3d", "combinator", func(e *Env) (sdf.SDF3, error) {
+			return sdf.Cut3D(box3(), v3.Vec{X: 0.1}, v3.Vec{X: 1, Y: 1, Z: 0.5}), nil
+		}),
 		f3("array3d", "wrapper", func(e *Env) (sdf.SDF3, error) {
 			s := sdf.Array3D(sphere3(), v3i.Vec{X: 2, Y: 2, Z: 2}, v3.Vec{X: 1.5, Y: 1.4, Z: 1.3})
 			s.(*sdf.ArraySDF3).SetMin(sdf.PolyMin(0.2))
+			return s, nil
+		}),
+		// many copies with overlapping blend ranges: any "parallel fold" would depend on completion order
+		f3("array3d-32-blend", "wrapper", func(e *Env) (sdf.SDF3, error) {
+			s := sdf.Array3D(sphere3(), v3i.Vec{X: 4, Y: 4, Z: 2}, v3.Vec{X: 1.1, Y: 1.0, Z: 1.2})
+			s.(*sdf.ArraySDF3).SetMin(sdf.PolyMin(0.6))
+			return s, nil
+		}),
+		f2("array2d-36-blend", "wrapper", func(e *Env) (sdf.SDF2, error) {
+			s := sdf.Array2D(circle2(), v2i.Vec{X: 6, Y: 6}, v2.Vec{X: 1.0, Y: 1.1})
+			s.(*sdf.ArraySDF2).SetMin(sdf.PolyMin(0.6))
+			return s, nil
+		}),
+		f3("union3d-40-blend", "combinator", func(e *Env) (sdf.SDF3, error) {
+			var parts []sdf.SDF3
+			for i := 0; i < 40; i++ {
+				parts = append(parts, sdf.Transform3D(sphere3(), sdf.Translate3d(v3.Vec{X: 0.7 * float64(i%8), Y: 0.8 * float64(i/8), Z: 0.1 * float64(i%3)})))
+			}
+			s := sdf.Union3D(parts...)
+			s.(*sdf.UnionSDF3).SetMin(sdf.PolyMin(0.5))
+			return s, nil
+		}),
+		f3("rotateunion3d-36-blend", "wrapper", func(e *Env) (sdf.SDF3, error) {
+			s := sdf.RotateUnion3D(sdf.Transform3D(sphere3(), sdf.Translate3d(v3.Vec{X: 3})), 36, sdf.RotateZ(sdf.DtoR(10)))
+			s.(*sdf.RotateUnionSDF3).SetMin(sdf.PolyMin(0.4))
 			return s, nil
 		}),
 		f3("rotateunion3d", "wrapper", func(e *Env) (sdf.SDF3, error) {
